@@ -5,7 +5,7 @@ From Coq Require Import ZArith List Bool Reals.
 From FT.lib Require Import Num Arr ArrLemmas Lower.
 From FT.gen Require Import Fteik2d Fteik3d.
 From FT.proofs Require Import Sweep2dProofs Sweep3dProofs SweepDargs.
-From FT.proofs Require OperatorsR Operators3R NonNeg2d.
+From FT.proofs Require OperatorsR Operators3R NonNeg2d GridPath.
 Import ListNotations.
 Open Scope Z_scope.
 
@@ -104,6 +104,39 @@ Theorem C04_eight_point_guard_noop_on_cubic_cells :
   Operators3R.op3_raw tv te tn tev ten tnv tnve vref d d d dzxi dzyi dxyi (d + d + d).
 Proof. exact @Operators3R.op3_guard_noop_cubic. Qed.
 
+(* Second clause in its path form (exact arithmetic): at a fixed point of a pass no node is later than ANY path along
+   grid edges from any other node, each edge costing d * (smallest slowness of the adjoining cells); hence the Manhattan
+   bound with the largest slowness.  Solver-level corollaries (node and off-node sources) are in props/C03.v. *)
+Theorem C04_fixed_point_any_grid_path_2d :
+  forall (nz nx : Z) (tt : arr R) (ttsgn : arr Z) (slow : arr R) (dz dx zsi xsi zsa xsa vzero : R) (grad : bool),
+  2 <= nz -> 2 <= nx -> Sweep2dProofs.okT nz nx tt ->
+  fst (sweep2d tt ttsgn slow dz dx zsi xsi zsa xsa vzero nz nx grad) = tt ->
+  forall (p q : Z * Z) (l : R), GridPath.gpath2 nz nx slow dz dx p q l ->
+  (get 0 tt [fst q; snd q] <= get 0 tt [fst p; snd p] + l)%R.
+Proof. exact @GridPath.grid2_path_bound. Qed.
+
+Theorem C04_fixed_point_manhattan_2d :
+  forall (nz nx : Z) (tt : arr R) (ttsgn : arr Z) (slow : arr R) (dz dx zsi xsi zsa xsa vzero : R) (grad : bool),
+  2 <= nz -> 2 <= nx -> Sweep2dProofs.okT nz nx tt ->
+  fst (sweep2d tt ttsgn slow dz dx zsi xsi zsa xsa vzero nz nx grad) = tt ->
+  forall smax : R, (0 <= dz)%R -> (0 <= dx)%R ->
+  (forall p q : Z, 0 <= p <= nz - 2 -> 0 <= q <= nx - 2 -> (get 0 slow [p; q] <= smax)%R) ->
+  forall i j i' j' : Z, 0 <= i <= nz - 1 -> 0 <= j <= nx - 1 -> 0 <= i' <= nz - 1 -> 0 <= j' <= nx - 1 ->
+  (get 0 tt [i'; j'] <= get 0 tt [i; j] + smax * (dz * IZR (Z.abs (i' - i)) + dx * IZR (Z.abs (j' - j))))%R.
+Proof. exact @GridPath.grid2_manhattan. Qed.
+
+Theorem C04_fixed_point_manhattan_3d :
+  forall (nz nx ny : Z) (tt : arr R) (ttsgn : arr Z) (slow : arr R) (dz dx dy : R) (grad : bool),
+  2 <= nz -> 2 <= nx -> 2 <= ny -> Sweep3dProofs.okT nz nx ny tt ->
+  fst (sweep3d tt ttsgn slow dz dx dy nz nx ny grad) = tt ->
+  forall smax : R, (0 <= dz)%R -> (0 <= dx)%R -> (0 <= dy)%R ->
+  (forall p q r : Z, 0 <= p <= nz - 2 -> 0 <= q <= nx - 2 -> 0 <= r <= ny - 2 -> (get 0 slow [p; q; r] <= smax)%R) ->
+  forall i j k i' j' k' : Z,
+  0 <= i <= nz - 1 -> 0 <= j <= nx - 1 -> 0 <= k <= ny - 1 -> 0 <= i' <= nz - 1 -> 0 <= j' <= nx - 1 -> 0 <= k' <= ny - 1 ->
+  (get 0 tt [i'; j'; k'] <= get 0 tt [i; j; k] +
+   smax * (dz * IZR (Z.abs (i' - i)) + dx * IZR (Z.abs (j' - j)) + dy * IZR (Z.abs (k' - k))))%R.
+Proof. exact @GridPath.grid3_manhattan. Qed.
+
 Print Assumptions C04_sweep3d_constants.
 Print Assumptions C04_sweep2d_constants.
 Print Assumptions C04_fixed_point_edges_2d.
@@ -111,3 +144,6 @@ Print Assumptions C04_fixed_point_edges_2d_R.
 Print Assumptions C04_fixed_point_edges_3d_R.
 Print Assumptions C04_four_point_not_before_diagonal.
 Print Assumptions C04_eight_point_guard_noop_on_cubic_cells.
+Print Assumptions C04_fixed_point_any_grid_path_2d.
+Print Assumptions C04_fixed_point_manhattan_2d.
+Print Assumptions C04_fixed_point_manhattan_3d.
